@@ -90,6 +90,12 @@ def run_case(case):
     m_con = [n for n, r in roles if r == 'con']
     m_amb = any(r == 'ambiguous' for _, r in roles)
     valmap = {}
+    # values stored on the design space graph itself are inherited by every instance: they must not leak into evaluate
+    if rng.random() < 0.4:
+        for i in mids:
+            if rng.random() < 0.7:
+                b.dsg.set_metric_value(b.node[i], 7.75 + i)
+        tags.append('inherited-values')
 
     class Ev(DSGEvaluator):
         def _evaluate(self, dsg, metric_nodes):
@@ -137,7 +143,7 @@ def run_case(case):
                 continue
             valmap[i] = float('nan') if (mode == 'nan' and rng.random() < 0.5) else rng.randint(-40, 40) / 4.0
         o_v, c_v = ev.evaluate(inst)
-        stored = sorted((b.ident[n], v) for n, v in inst.metric_values.items())
+        stored = sorted((b.ident[n], v) for n, v in inst.metric_values.items() if n in inst.graph.nodes)
         queries.append(sx(['evaluate', ms, roles, nodes, [[k, mv(v)] for k, v in sorted(valmap.items())]]))
         impls.append([[mv(v) for v in o_v], [mv(v) for v in c_v], [[n, mv(v)] for n, v in stored]])
         tags.append('eval:' + mode)
